@@ -76,6 +76,15 @@ type Named struct {
 // Name makes cqrs.NamedStruct use the value's own name.
 func (n Named) Name() string { return "named:" + n.Kind }
 
+// Untyped has members without a static type; they hold what encoding/json produces for such members.
+type Untyped struct {
+	ID   int64
+	Any  interface{}
+	Map  map[string]interface{}
+	List []interface{}
+	Num  interface{} `json:"num"`
+}
+
 type Empty struct{}
 
 // Unserialisable cannot be encoded by encoding/json (channel field).
@@ -88,12 +97,20 @@ var jsonTypes = []reflect.Type{
 	reflect.TypeOf(Simple{}), reflect.TypeOf(Numbers{}), reflect.TypeOf(Tagged{}), reflect.TypeOf(Nested{}),
 	reflect.TypeOf(Named{}), reflect.TypeOf(Empty{}), reflect.TypeOf(""), reflect.TypeOf(map[string]int{}),
 	reflect.TypeOf([]Simple{}), reflect.TypeOf(int64(0)), reflect.TypeOf(Unserialisable{}),
+	reflect.TypeOf(Untyped{}), reflect.TypeOf(map[string]interface{}{}),
 }
 
 // genJSONValue returns a pointer to a random value of the idx-th type of the family.
 func genJSONValue(idx int, seed uint64) reflect.Value {
 	p := reflect.New(jsonTypes[idx%len(jsonTypes)])
-	fill(wh.NewRng(seed), p.Elem(), 0)
+	r := wh.NewRng(seed)
+	fill(r, p.Elem(), 0)
+	if u, ok := p.Interface().(*Untyped); ok {
+		u.Num = genFloat(r, 64) // an untyped member that always holds a number
+		if r.Bool() {
+			u.Num = float64(r.Intn(1 << 30))
+		}
+	}
 	return p
 }
 
@@ -146,7 +163,13 @@ func genValuepb(r *wh.Rng, depth int) *structpb.Value {
 
 const nStdTypes = 12
 
+// allDefaultsSeed: the value seed that stands for "no field set" (the zero message, whose encoding is zero bytes long).
+const allDefaultsSeed = 0
+
 func genStdProto(idx int, seed uint64) interface{} {
+	if seed == allDefaultsSeed {
+		return reflect.New(reflect.TypeOf(genStdProto(idx, 1)).Elem()).Interface()
+	}
 	r := wh.NewRng(seed)
 	switch idx % nStdTypes {
 	case 0:
@@ -226,6 +249,9 @@ func noNegZero(f float64) float64 {
 }
 
 func genGogoProto(idx int, seed uint64) interface{} {
+	if seed == allDefaultsSeed {
+		return reflect.New(reflect.TypeOf(genGogoProto(idx, 1)).Elem()).Interface()
+	}
 	r := wh.NewRng(seed)
 	switch idx % nGogoTypes {
 	case 0:
@@ -279,6 +305,11 @@ type cqrsGen struct {
 	prime        bool
 	primeSeed    uint64
 	primeVariant int
+	// the target of Unmarshal is not fresh (optional suffix ^<seed>, protobuf families only): a consumer that keeps one event
+	// value decoded the message of another value of the type (value seed usedSeed) into it before. proto.Unmarshal resets its
+	// target, so Unmarshal(Marshal(v)) must be v whatever the target held.
+	used     bool
+	usedSeed uint64
 }
 
 func (g cqrsGen) tok() string {
@@ -290,11 +321,22 @@ func (g cqrsGen) tok() string {
 	if g.prime {
 		t += fmt.Sprintf("~%d_%d", g.primeSeed, g.primeVariant)
 	}
+	if g.used {
+		t += fmt.Sprintf("^%d", g.usedSeed)
+	}
 	return t
 }
 
 func parseGen(s string) (cqrsGen, error) {
 	var g cqrsGen
+	if i := strings.Index(s, "^"); i >= 0 {
+		us, err := strconv.ParseUint(s[i+1:], 10, 64)
+		if err != nil {
+			return g, fmt.Errorf("bad generator descriptor %q", s)
+		}
+		g.used, g.usedSeed = true, us
+		s = s[:i]
+	}
 	if i := strings.Index(s, "~"); i >= 0 {
 		pf := strings.Split(s[i+1:], "_")
 		if len(pf) != 2 {
@@ -437,7 +479,7 @@ func valueFor(g cqrsGen) (arg interface{}, target interface{}, opt canonOpt) {
 }
 
 // withUnknown: every third protobuf value carries unknown fields (decided by the value seed, so a replay regenerates it).
-func withUnknown(g cqrsGen) bool { return g.seed%3 == 0 }
+func withUnknown(g cqrsGen) bool { return g.seed != allDefaultsSeed && g.seed%3 == 0 }
 
 // gogoStdUnknown: the deprecated gogo ProtobufMarshaler given a message of the NEW protobuf API that carries unknown
 // fields loses them in Marshal on the unchanged code (gogo's reflective encoder does not see them and reports no error,
@@ -599,6 +641,13 @@ func runCqrs(kind string, g cqrsGen) (req, obs string, serialisable bool) {
 				obs = wh.PanicText(r)
 			}
 		}()
+		if g.used {
+			// the target has been used: the message of another value of the type was decoded into it
+			other, _, _ := valueFor(cqrsGen{family: g.family, typ: g.typ, seed: g.usedSeed, ptr: g.ptr})
+			if m0, err := mar.Marshal(other); err != nil || mar.Unmarshal(m0, target) != nil {
+				return "err:prepare-target"
+			}
+		}
 		msg, err := mar.Marshal(arg)
 		if err != nil {
 			return "err:marshal"
@@ -685,6 +734,28 @@ func cqrsCases(out *wh.Out, r *wh.Rng, n int) {
 			}
 			emit(kind, g)
 			out.Count("cqrs.proto_value_edited_in_place_after_size_or_publish." + kind)
+		}
+	}
+	// protobuf: the target of Unmarshal already holds another event (proto.Unmarshal resets it); the value decoded into it is any
+	// value, and - every other case - the all-defaults value of the type, whose encoding is empty
+	for i := 0; i < n/3; i++ {
+		for _, kf := range [][2]string{{"proto", "s"}, {"gogo", "g"}, {"gogo", "s"}} {
+			g := cqrsGen{family: kf[1], typ: i, seed: r.Next() >> 1, variant: r.Intn(nNameVariants), ptr: true, used: true, usedSeed: 1 + r.Next()>>1}
+			if kf[0] == "gogo" && kf[1] == "g" {
+				g.variant = r.Intn(2 * nNameVariants) // (new-API messages need the std fallback: it stays enabled for them)
+			}
+			if i%2 == 0 {
+				g.seed = allDefaultsSeed
+			}
+			for kf[0] == "gogo" && kf[1] == "s" && !gogoStdUnknown && withUnknown(g) {
+				g.seed++ // (see gogoStdUnknown: no unknown fields on new-API messages through the gogo marshaler unless the finding is listed)
+			}
+			emit(kf[0], g)
+			if g.seed == allDefaultsSeed {
+				out.Count("cqrs.used_target.all_defaults_value." + kf[0] + "." + kf[1])
+			} else {
+				out.Count("cqrs.used_target.any_value." + kf[0] + "." + kf[1])
+			}
 		}
 	}
 	for i := 0; i < 12; i++ {
